@@ -88,6 +88,17 @@ struct Rd {
     uint8_t u8() { return (uint8_t)b[p++]; }
     std::string str() { uint32_t n = u32(); std::string s = b.substr(p, n); p += n; return s; }
 };
+// optional trailing request field (C25, script level): i32 stopAt, i32 resetAfter.  A global stop request is placed before poll
+// number stopAt of the run (polls of all check-sat commands are counted through) and withdrawn again before poll stopAt+resetAfter
+// (resetAfter = 0: never): the schedules of a second thread calling notifyGlobalStop() and later resetGlobalStop().
+namespace opensmt { void notifyGlobalStop(); void resetGlobalStop(); }
+static long g_polls = 0, g_stopAt = -1, g_resetAfter = 0;
+static void onSched(char const * tag) {
+    if (std::strcmp(tag, "poll") != 0) return;
+    if (g_polls == g_stopAt) opensmt::notifyGlobalStop();
+    else if (g_resetAfter > 0 && g_polls == g_stopAt + g_resetAfter) opensmt::resetGlobalStop();
+    g_polls++;
+}
 static void put32(std::string & o, uint32_t v) { o.append((char *)&v, 4); }
 static void putstr(std::string & o, std::string const & s) { put32(o, s.size()); o += s; }
 
@@ -122,6 +133,12 @@ int main(int argc, char ** argv) {
         uint32_t ns = r.u32();
         g_cuts.clear();
         for (uint32_t i = 0; i < ns; i++) g_cuts.push_back(r.u32());
+        g_stopAt = -1; g_resetAfter = 0; g_polls = 0;
+        if (r.p + 8 <= req.size()) { g_stopAt = (int32_t)r.u32(); g_resetAfter = (int32_t)r.u32(); }
+        opensmt::resetGlobalStop();
+#ifdef OPENSMT_VERIF
+        opensmt::verif::setSched(g_stopAt >= 0 ? onSched : nullptr);
+#endif
         // reset per-job state
         if (ftruncate(outFd, 0)) {}
         if (ftruncate(errFd, 0)) {}
@@ -162,6 +179,7 @@ int main(int argc, char ** argv) {
         putstr(resp, slurp(outFd));
         putstr(resp, slurp(errFd));
         putstr(resp, trace ? slurp(trFd) : std::string());
+        put32(resp, (uint32_t)g_polls);      // polls counted in this run (0 unless a stop position was given)
         uint32_t rl = resp.size();
         writeAll(rfd, &rl, 4);
         writeAll(rfd, resp.data(), resp.size());
